@@ -389,6 +389,9 @@ class Explorer:
         self.truncated = False
         self.inconclusive_paths = 0
         self.deadline = deadline
+        self._known0 = {}
+        for a in self.assumptions:
+            self._note(self._known0, a)
         self._reset_run([])
 
     def _reset_run(self, prefix):
@@ -401,6 +404,19 @@ class Explorer:
         self.solver.set('timeout', self.timeout_ms)
         for a in self.assumptions:
             self.solver.add(a)
+        self.known = dict(self._known0)
+
+    @staticmethod
+    def _note(known, lit):
+        """remember a literal of the path condition so that syntactically identical conditions need no solver call"""
+        try:
+            lit = z3.simplify(lit)
+        except z3.Z3Exception:
+            return
+        if z3.is_not(lit):
+            known[lit.arg(0).get_id()] = (False, lit.arg(0))
+        else:
+            known[lit.get_id()] = (True, lit)
 
     def side_fact(self, f):
         i = f.get_id()
@@ -428,6 +444,13 @@ class Explorer:
             return True
         if z3.is_false(cond):
             return False
+        k = self.known.get(cond.get_id())
+        if k is not None:
+            return k[0]
+        if z3.is_not(cond):
+            k = self.known.get(cond.arg(0).get_id())
+            if k is not None:
+                return not k[0]
         i = len(self.trace)
         if i < len(self.prefix):
             d = bool(self.prefix[i])
@@ -442,6 +465,10 @@ class Explorer:
         c = cond if d else z3.Not(cond)
         self.pc.append(c)
         self.solver.add(c)
+        if z3.is_not(cond):
+            self.known[cond.arg(0).get_id()] = (not d, cond.arg(0))
+        else:
+            self.known[cond.get_id()] = (d, cond)
         return d
 
     def choose(self, n, label='choice'):
